@@ -310,3 +310,6 @@ def r_dead_worker_refused(ctx):
 
 RULES = [r1_raise_not_discard, r2_healthcheck, r3_r6_executor_loop, r4_bridge_failures, r5_task_failure, r7_teardown, r_purge,
          r1_shutdown_postdominates, r_dead_worker_refused]
+
+from .common import lazy  # noqa: E402
+RULES.append(lazy("C02", "r_message_dedup", "a failure message whose first transmission was lost must still be delivered when it is retried"))
